@@ -201,8 +201,9 @@ class ResponseEncoder:
                     if element.qvalue > 0:
                         if element.value == '*':
                             # Matches any charset not mentioned elsewhere.
-                            # Try our default unless it is refused.
-                            if self.default_encoding.lower() in refused:
+                            # Our default stands for it unless it is listed
+                            # itself (then it has its own qvalue and turn).
+                            if self.default_encoding.lower() in charsets:
                                 continue
                             if self.debug:
                                 cherrypy.log('Attempting default encoding due '
